@@ -9,17 +9,16 @@
         scalar subquery never computed)
      2  two or more operators whose standard reading (INTERSECT first, then left to right)
         differs from the parser's right-associative reading
-     1  INTERSECT ALL / EXCEPT ALL (decided by membership instead of by counting)
+     1  (repaired by 432d38e, no longer assigned) INTERSECT ALL / EXCEPT ALL by membership
    single SELECT
      4  a subquery in the select list (never computed: NULL)
      5  EXISTS / IN (subquery) next to other conjuncts: the Filter is replaced by the join, the
         other conjuncts are dropped
      6  NOT IN (subquery) executed as a plain anti join (NULLs ignored)
-     7  semi / anti join whose condition has a column = column conjunct: only those key pairs
-        are used (the rest of the condition is dropped; keys that do not pair an outer with an
-        inner column are ignored; a bare column name resolves to the outer table first); or a
-        nested-loop condition in which a bare column of the outer expression (x IN ..) resolves
-        to the subquery's table (CompiledPredicate: the inner table's names win)
+     7  bare column names in the join condition of a decorrelated subquery resolve over the
+        combined row: in a key of the hash path (condition = column = column conjuncts only) to
+        the outer table first, in a nested-loop condition to the subquery's table first (the
+        dropped residual condition of the hash path was repaired by 53a2c94 / 824c6c8)
      8  a subquery nested in the WHERE of a decorrelated subquery (EXISTS / IN read TRUE, a scalar
         subquery is missing)
      9  EXISTS / IN (subquery) that is not decorrelated (under OR / NOT / IS NULL, or over a
@@ -27,7 +26,8 @@
     10  a correlated scalar subquery: error "column not found"
     11  a scalar subquery whose own WHERE contains a subquery, or whose FROM is a derived table
         (NULL, or computed with EXISTS / IN read as TRUE)
-    12  a scalar subquery with more than one row: the first row is used, no error
+    12  (repaired by 855697d: now the SQL error; kept as a side condition of the theorem, not
+        reported by Corr) a scalar subquery with more than one row
     13  FROM (subquery) whose levels or whose outer WHERE contain subqueries *)
 From Coq Require Import ZArith List Bool Arith.
 From TV Require Import Model.SqlSpec Model.SubqSpec Model.SubqImpl Model.SubqWf.
@@ -67,7 +67,6 @@ Definition is_all_ie (o : setk * bool * qry) : bool :=
 Definition chain_class (c : chain) : Z :=
   if leaf_has_sub (fst c) || existsb (fun o => leaf_has_sub (snd o)) (snd c) then 3
   else if negb (same_reading c) then 2
-  else if existsb is_all_ie (snd c) then 1
   else 0.
 
 (* ------------------------------------------------------------------ single SELECT *)
@@ -144,10 +143,8 @@ Section Db.
               match join_cond d with
               | None => 0
               | Some c =>
-                  match equi_keys c with
-                  | [] => if has_sub c then 8 else if negb (bare_ok [rw; lw] c) then 7 else 0
-                  | _ => if pure_keys lw rw c then 0 else 7
-                  end
+                  if hash_path c then (if pure_keys lw rw c then 0 else 7)
+                  else if has_sub c then 8 else if negb (bare_ok [rw; lw] c) then 7 else 0
               end
           end
     | None =>
